@@ -568,6 +568,23 @@ def run_deep(ending, ctx):
 
 
 def _run_deep(ending, ctx):
+    if ending == 'back-edge':
+        # cycles longer than the interpreter's recursion capacity: still a
+        # cycle, and it must be reported as one
+        for d in DEEP:
+            model = lib.compile_dict(chain_model(d, ending, 1))
+            try:
+                with lib.time_limit(30):
+                    got, _ = cycle_obs(lib.Evaluator(model).evaluate,
+                                       'Sheet1!C1')
+            except lib.CaseTimeout:
+                got = 'timeout'
+            lib.clear_caches()
+            ctx.count('transitions')
+            ctx.check('C06/deep/back-edge/d=%d' % d, got, 'cycle-report',
+                      ['chain', 'deep-cycle', 'entry:on-cycle'],
+                      {'kind': 'deep', 'ending': ending}, True)
+        return
     for d in DEEP:
         cells = chain_model(d, ending)
         key = 'C06/deep/%s/d=%d' % (ending, d)
@@ -589,7 +606,7 @@ def _run_deep(ending, ctx):
 
 def plan(tier):
     shards = []
-    for ending in ('value', 'unknown-function'):
+    for ending in ('value', 'unknown-function', 'back-edge'):
         shards.append({'kind': 'deep', 'ending': ending, 'weight': 40})
     for n, base in ((1, 3), (2, 3), (3, 3)):
         total = base ** (n * n)
